@@ -509,13 +509,14 @@ func (obj *Package) Export(name string) {
 	obj.mu.Unlock()
 }
 
-// Unexport a function.
+// Unexport a function or variable of the package. A name the package merely
+// inherits from a package it uses is left alone.
 func (obj *Package) Unexport(name string) {
 	name = strings.ToLower(name)
 	obj.mu.Lock()
 	// TBD remove from Exports list
 	if obj.funcs != nil {
-		if fi := obj.funcs[name]; fi != nil {
+		if fi := obj.funcs[name]; fi != nil && fi.Pkg == obj {
 			fi.Export = false
 			for _, u := range obj.Users {
 				u.mu.Lock()
@@ -527,7 +528,7 @@ func (obj *Package) Unexport(name string) {
 		}
 	}
 	if obj.vars != nil {
-		if vv := obj.vars[name]; vv != nil {
+		if vv := obj.vars[name]; vv != nil && vv.Pkg == obj {
 			vv.Export = false
 			for _, u := range obj.Users {
 				u.mu.Lock()
